@@ -126,7 +126,14 @@ def cases_for(tier):
     cs = []
     for p, rt, hl, ov in itertools.product(PERIODS if tier == "thorough" else QUICK_PERIODS, (1, 2), range(0, 5), (0, 1)):
         top = nmax(p) if tier == "thorough" else min(nmax(p), max(p, 0) + 4)
-        for n in range(1, top + 1):
+        ns = list(range(1, top + 1))
+        # long streams: with P = -1 "only position 0" must survive every internal interval cap (lengths beyond 15 * 2^hl), with P >= 0
+        # the period must not drift after several refreshes
+        if p == -1:
+            ns.append({0: 40, 1: 70, 2: 130, 3: 130, 4: 240}[hl] if (tier == "thorough" or ov == 0) else 40)
+        elif p > 0 and (tier == "thorough" or p in (3, 8)) and ov == 0:
+            ns.append(5 * (p + 1) + 2)
+        for n in ns:
             cs.append(("hl=%d,ip=%d,rt=%d,ov=%d/n=%d" % (hl, p, rt, ov, n),
                        {"w": 64, "h": 64, "n": n, "content": "grad", "enc_mode": 8, "hierarchical_levels": hl, "intra_period_length": p,
                         "intra_refresh_type": rt, "enable_overlays": ov}))
@@ -153,7 +160,8 @@ def run(tier):
         PID, tier, cases_for(tier), case,
         "intra_period_length P in %s x intra_refresh_type {1,2} x hierarchical_levels 0..4 x enable_overlays {0,1} x every N in 1..%s; 64x64 grad, "
         "preset 8; every packet's displayed frame type checked, every shown-key-frame packet used as a decode start; distinct = distinct "
-        "packet-stream hashes" % (list(PERIODS), "min(2(P+1)+3, 36)" if tier == "thorough" else "max(P,0)+4 (complete sub-grid)"),
+        "packet-stream hashes" % (list(PERIODS), "min(2(P+1)+3, 36)" if tier == "thorough" else "max(P,0)+4 (complete sub-grid)") +
+        "; plus one long stream per (P, hl): P = -1 with 40/70/130/130/240 pictures for hl 0..4 (beyond 15 * 2^hl), P > 0 with 5(P+1)+2 pictures",
         ASSUMPTIONS, extra_cov={"oracle": "intra display positions == multiples of P+1; decode from each shown key frame == tail of the full decode (libaom+dav1d)"})
 
 
